@@ -3,7 +3,7 @@ per place (local / field path) it tracks a lower bound of the byte length, ASCII
 whether a local is a character-boundary position obtained from a search on a given base."""
 import re
 from .common import Finding
-from .facts import walk, is_call, lit_val, peel, callee
+from .facts import walk, is_call, lit_val, peel, callee, CN_INIT
 from .facts import place_str as _place_str
 
 
@@ -154,7 +154,15 @@ def expr_text(n, depth=0):
         return "_"
     k = n.get("k")
     if k == "local":
-        return n["name"]
+        nm = n["name"]
+        if nm.startswith("s_") and nm in CN_INIT and depth < 4:
+            # an immutable binding of a pure expression reads as that expression (let introduction / removal
+            # does not change the text)
+            init = CN_INIT[nm]
+            t = expr_text(init, depth + 2)
+            pk = peel(init).get("k") if isinstance(peel(init), dict) else None
+            return "(%s)" % t if pk in ("bin", "un", "cast", "if", "match") else t
+        return nm
     if k == "lit":
         return repr(n.get("v")) if n.get("t") == "str" else str(n.get("v"))
     if k == "field":
